@@ -166,7 +166,7 @@ Section Agreement.
         destruct (c =? 46).
         { apply agree_position_r; intros start.
           apply agree_bind_same; intros nx.
-          destruct ((nx =? 0) || is_delimiter nx).
+          destruct (lone_dot nx).
           - destruct acc as [|a0 acc'].
             + cbn [map]. apply agree_bind_same; intros [x|]; apply agree_peek_error.
             + cbn [map].
